@@ -25,7 +25,7 @@ Proof. intros A B. split; [intros t f; now rewrite A|intro f; now rewrite B]. Qe
 Lemma fstep_finv s o : FInv s -> FInv (fstep K s o).
 Proof.
   intro H. apply (finv_keep s); [|exact H]. apply dkeep_same;
-    destruct o as [t e|t|t|t|t|l v|k v|k m|d]; cbn [fstep]; try reflexivity.
+    destruct o as [t e|t|t|t|t|l v|k v|k m|d|t c]; cbn [fstep]; try reflexivity.
   all: try (destruct (pend (th s t)); [reflexivity|]; destruct (tvalid (th s t) && passes_logger s e); reflexivity).
   all: try (destruct (memb t (registered s) || negb (tvalid (th s t))); reflexivity).
   all: try (destruct (wflush (th s t)); [|reflexivity]; destruct (existsb (N.eqb n) (flags s)); reflexivity).
